@@ -152,7 +152,7 @@ def gen_program(rng, prop, name, world, tier):
         n_ops = rng.randint(3, 12 if big else 9)
         prog.append(_calc_new(h0, rng, valid))
         handles = [h0]
-        w_ops = {"C14": {"read": 5, "write": 2, "writevars": 2, "run": 1, "new": 1, "mutate": 1, "fill": 1},
+        w_ops = {"C14": {"read": 5, "write": 2, "writevars": 2, "run": 1, "new": 1, "mutate": 1, "fill": 1, "io": 1, "static": 1},
                  "C15": {"read": 1, "write": 4, "writevars": 4, "run": 2, "new": 1, "mutate": 1, "fill": 0},
                  "C19": {"read": 0, "write": 3, "writevars": 3, "run": 1, "new": 0, "mutate": 0, "fill": 0}}[prop]
         kinds = [k for k, wgt in w_ops.items() for _ in range(wgt)]
@@ -189,6 +189,19 @@ def gen_program(rng, prop, name, world, tier):
                     prog.append({"op": "env.mutate_config", "h": h, "what": "set_symmetry", "key": "drop_atol", "value": 1.0e-3})
                 else:
                     prog.append({"op": "env.mutate_config", "h": h, "what": "clear_output_base", "base": rng.choice(["pressure_base", "volume_base"])})
+            elif k == "io":
+                r = rng.random()
+                if r < 0.3:
+                    prog.append({"op": "io.read_energy", "path": None, "abs": True})
+                elif r < 0.6:
+                    prog.append({"op": "io.read_elast", "abs": True})
+                else:
+                    p = f"we_{name.lower()}{len(prog)}.dat"
+                    prog.append({"op": "io.write_energy", "path": p, "data": gen_energy_data(rng, tier, small=True), "abs": True, "comment": None})
+                    prog.append({"op": "io.read_energy", "path": p, "abs": True})
+            elif k == "static":
+                prog.append({"op": "cli.static", "mode": rng.choice(["none", "volume", "pressure"]), "with_table": rng.random() < 0.5,
+                             "system": rng.choice([None, world["static"]["system"]])})
             elif k == "fill":
                 prog.append({"op": "cli.fill", "system": world["static"]["system"], "store": "f0", "flags": [],
                              "expect_ok": world["static"]["cli_ok"]})
@@ -509,6 +522,10 @@ def gen_scenario(prop, seed, tier, faults_enabled=None, nclients=None, segments_
         kw["full_output"] = prop == "C15" and rng.random() < 0.3
         w = W.gen_world(rng, tier, n, **kw)
         w["static"]["cli_ok"] = True
+        if prop == "C14" and rng.random() < 0.04:
+            # a refused calculation as part of the process history: schema-invalid settings
+            w["settings"]["elast"]["settings"]["mode_gamma"]["interpolator"] = "cubic-spline"
+            w["valid"] = False
         if prop == "C19":
             w["stubs"] = gen_stub_tables(rng, n, w, rng.randint(0, 2))
         worlds[n] = w
